@@ -307,8 +307,10 @@ class DRFNet(BayesianNetwork):
         # used for all bootstrap samples, so that source variables are
         # resampled independently of each other
         rng = np.random.default_rng(random_state)
-        # The forests draw from numpy's global generator when sampling
-        np.random.seed(random_state) if random_state is not None else None
+        # The forests draw from numpy's global generator when
+        # sampling. Its seed is taken from the seeded generator (the
+        # legacy seeding function only accepts 32-bit seeds)
+        np.random.seed(rng.integers(2**32)) if random_state is not None else None
         sampled_data = []
         for k in range(self.e):
             sample = np.zeros((n[k], self.p), dtype=float)
